@@ -334,7 +334,7 @@ func (r *r1) publicationPass(cands []*types.Var) map[*types.Var]*pubResult {
 				case core.KAssign:
 					if !ev.FieldInit {
 						if v := identVar(ev.Lhs, ev.Frame); v != nil && !v.IsField() {
-							fresh[v] = ev.Rhs != nil && ev.RhsIdx < 0 && isFreshExpr(ev.Rhs, ev.Frame.Info())
+							fresh[v] = ev.Rhs != nil && ev.RhsIdx < 0 && r.isFresh(ev.Rhs, ev.Frame.Info())
 						}
 					}
 				case core.KFuncLitVal:
